@@ -27,7 +27,8 @@ LEVEL = "fault_enumeration"
 SHRUNK = 4  # entries per raft log file in the overlaid build (30000 in the repository)
 
 RULE = ("(a) every sequence over the role-based event alphabet {W write next batch of the menu to the current raft leader, Wi write to the "
-        "leader while it is cut off from its peers, Kl kill leader, Kf/Kg kill a follower, R restart the dead replica from its directories, "
+        "leader while it is cut off from its peers, Wj five batches to the cut-off leader (more discarded entries than later leader changes, "
+        "so that a real entry overwrites a discarded one), Kl kill leader, Kf/Kg kill a follower, R restart the dead replica from its directories, "
         "Fl/Ff/Fg flush leader's / a follower's shard, T advance 1 min, E advance one election timeout} of length <= tier bound with at "
         "most one replica down, executed on three real replicas, oracle after every step and after a final convergence phase; "
         "evaluations = event sequences executed (+ catalogue sequences of part b); distinct_nontrivial = distinct sequences containing at "
